@@ -54,3 +54,35 @@ Fixpoint recv_mode (rs : list recv) (f msg : string) : mode :=
   end.
 
 Definition safe (m : mode) : bool := match m with NilChecked | Getter => true | _ => false end.
+
+(* ---------- protobuf message schemas (generated into Gen.v from the struct tags of x.pb.go) ---------- *)
+From Coq Require Import NArith.
+Inductive fkind :=
+| FVar64                (* *uint64 : varint *)
+| FVar32                (* *int32  : varint, truncated to 32 bits, signed *)
+| FStr                  (* *string : length-delimited (proto2: no UTF-8 validation) *)
+| FBytes                (* []byte  : length-delimited, optional *)
+| FRepBytes             (* [][]byte *)
+| FMsg (m : string)     (* *M      : embedded message, occurrences merge *)
+| FRepMsg (m : string). (* []*M *)
+Record fdesc := mk_fd { fd_num : N; fd_name : string; fd_kind : fkind; fd_req : bool }.
+Definition schema := list (string * list fdesc).
+
+Definition fkind_eqb (a b : fkind) : bool :=
+  match a, b with
+  | FVar64, FVar64 | FVar32, FVar32 | FStr, FStr | FBytes, FBytes | FRepBytes, FRepBytes => true
+  | FMsg x, FMsg y | FRepMsg x, FRepMsg y => String.eqb x y
+  | _, _ => false
+  end.
+Definition fdesc_eqb (a b : fdesc) : bool :=
+  N.eqb a.(fd_num) b.(fd_num) && String.eqb a.(fd_name) b.(fd_name) && fkind_eqb a.(fd_kind) b.(fd_kind) &&
+  Bool.eqb a.(fd_req) b.(fd_req).
+Definition schema_eqb (a b : schema) : bool :=
+  list_eqb (fun x y => String.eqb (fst x) (fst y) && list_eqb fdesc_eqb (snd x) (snd y)) a b.
+
+Fixpoint msg_fields (s : schema) (m : string) : list fdesc :=
+  match s with [] => [] | (n, f) :: r => if String.eqb n m then f else msg_fields r m end.
+Fixpoint find_fd (f : list fdesc) (num : N) : option fdesc :=
+  match f with [] => None | d :: r => if N.eqb d.(fd_num) num then Some d else find_fd r num end.
+Fixpoint fnum_in (f : list fdesc) (name : string) : N :=
+  match f with [] => 0%N | d :: r => if String.eqb d.(fd_name) name then d.(fd_num) else fnum_in r name end.
